@@ -361,7 +361,7 @@ def _encode_rel(ep, semi, varprops, lnk, delim):
     synopsis = semi.find_synopsis(ep.predicate, roles)
     args = [_encode_variable(ep.args[d.name], varprops)
             for d in synopsis
-            if d.name in ep.args]
+            if d.name in ep.args and d.name != CONSTANT_ROLE]
     if ep.carg is not None:
         args.append('"{}"'.format(ep.carg))
     return '{label}:{pred}{lnk}({args})'.format(
